@@ -1,4 +1,4 @@
-import SqlObjVerif.Lemmas.Graph
+import SqlObjVerif.Lemmas.GraphTrav
 /-!
 # C12 — destroySelf honours the declared cascade policy over the whole reference graph
 
@@ -181,6 +181,25 @@ theorem C12_refused_iff_partial (S : Schema) (db : DB) (c i : Nat) (hwf : db.WF)
     · exact absurd hok (C12_restrict_blocks S _ db db' c i hwf r hr hnr f hp x hx hf)
     · exact ⟨db', href⟩
 
+/-- **C12, outcome, exact for the model.**  `trav` walks the *original, immutable* reference graph in
+    `destroySelf`'s visiting order (dependent classes in registry order, rows in table order, depth first) and
+    remembers only which keys are already deleted.  For every schema, population, victim and budget the two agree:
+    `destroySelf` is refused iff the walk meets a not-yet-deleted row referencing the current victim through a
+    `cascade=False` key; it overflows iff the walk does; and when both succeed the surviving rows are the original
+    ones outside the walk's deleted list, in the original order, with unchanged cascade / restrict keys. -/
+theorem C12_outcome_exact (S : Schema) (n : Nat) (db : DB) (c i : Nat) :
+    ((∃ db', destroy S n db c i = .refused db') ↔ trav S db n [] c i = .refused) ∧
+    ((∃ db', destroy S n db c i = .fuel db') ↔ trav S db n [] c i = .fuel) ∧
+    (∀ db', destroy S n db c i = .ok db' → ∃ D, trav S db n [] c i = .ok D ∧ Sim S db D db') := by
+  have h := trav_sim S db n [] db c i (Sim.init S db)
+  cases h1 : destroy S n db c i <;> cases h2 : trav S db n [] c i <;> rw [h1, h2] at h <;> simp only [ResSim] at h <;>
+    simp_all
+
+/-- **C12, refusal, exact and without fuel**: no hypothesis at all -/
+theorem C12_refusal_exact (S : Schema) (db : DB) (c i : Nat) :
+    (∃ db', destroySelf S db c i = .refused db') ↔ traverse S db c i = .refused :=
+  (C12_outcome_exact S _ db c i).1
+
 /-! ### The full-strength statements are false of the code: witnesses (replayed on the implementation by the
 harness, corpus/C12/corner.json) -/
 
@@ -249,6 +268,9 @@ theorem C12_refusal_order_dependent :
     destroySelf insS insDB 0 1 = .ok ⟨[], [], []⟩ ∧ destroySelf insS' insDB 0 1 = .refused insDB := by decide
 
 /-! ### Non-vacuity -/
+example : traverse insS insDB 0 1 = .ok [(0, 1), (2, 1), (1, 1), (3, 1)] := by decide
+example : traverse insS' insDB 0 1 = .refused := by decide
+example : traverse cycS cycDB 0 1 = .fuel := by decide
 example : AcyclicData insS insDB := by
   rw [C12_acyclic_iff_ranked]
   refine ⟨fun x => 3 - x.1, ?_⟩
